@@ -79,7 +79,44 @@ class ExtrasMixin:
         return self.new_set(self.iterate_concrete(v))
 
     # ------------------------------------------------------------ folds over concrete iterables
+    def fold_gen(self, name, g: VGen):
+        """sum/any/all over a comprehension on a symbolic list"""
+        run = self.run
+        r = run.rec(g.src.oid)
+        gen = g.node.generators[0]
+        if not isinstance(gen.target, ast.Name):
+            raise E.Unsupported("comprehension target over symbolic list")
+        var = gen.target.id
+        if name == "sum" and isinstance(g.node.elt, ast.Constant) and g.node.elt.value == 1 and len(gen.ifs) == 1 \
+                and r.elem[0] == "obj" and self.contract is not None:
+            class Ren(ast.NodeTransformer):
+                def visit_Name(self, n):
+                    return ast.copy_location(ast.Name(id="x", ctx=n.ctx), n) if n.id == var else n
+            import copy as _copy
+            text = ast.unparse(Ren().visit(_copy.deepcopy(gen.ifs[0])))
+            for cn, ptext in self.contract.counters.get(r.elem[1], {}).items():
+                if ast.unparse(ast.parse(ptext, mode="eval").body) == text and cn in r.cnt:
+                    return VInt(r.cnt[cn])
+            raise E.Unsupported(f"no registered counter for predicate {text!r} on list of {r.elem[1]}")
+        if name in ("any", "all") and r.arr is not None:
+            i = z3.Int(run.fresh_name("i!q"))
+            x = self.wrap(r.elem, z3.Select(r.arr, i))
+            f2 = E.Frame(g.frame.relpath, g.frame.ci, {var: x}, g.frame, g.frame.fname)
+            self.pure += 1
+            try:
+                conds = [self.truthy(self.eval(c, f2)) for c in gen.ifs]
+                body = self.truthy(self.eval(g.node.elt, f2))
+            finally:
+                self.pure -= 1
+            rng = z3.And(i >= 0, i < r.length, *conds)
+            if name == "any":
+                return VBool(z3.Exists([i], z3.And(rng, body)))
+            return VBool(z3.ForAll([i], z3.Implies(rng, body)))
+        raise E.Unsupported(f"{name}() over a comprehension on a symbolic list")
+
     def fold_builtin(self, name, args, kwargs):
+        if args and isinstance(args[0], VGen):
+            return self.fold_gen(name, args[0])
         try:
             items = self.iterate_concrete(args[0])
         except E.Unsupported:
@@ -254,6 +291,54 @@ class ExtrasMixin:
         a = self.truthy(self.eval(node.args[0], frame))
         b = self.truthy(self.eval(node.args[1], frame))
         return VBool(E.simp(a == b))
+
+    def spec_count_of(self, node, frame):
+        lst = self.eval(node.args[0], frame)
+        cn = node.args[1].value
+        r = self.run.rec(lst.oid)
+        if r.concrete:
+            cls = None
+            tot = z3.IntVal(0)
+            for x in r.items:
+                cls = self.run.rec(x.oid).cls
+                tot = tot + z3.If(self.counter_pred(cls, cn, x), 1, 0)
+            return VInt(E.simp(tot))
+        if cn not in r.cnt:
+            raise E.Unsupported(f"list has no counter {cn}")
+        return VInt(r.cnt[cn])
+
+    def spec_at_head(self, node, frame):
+        """value of a local variable at the head of the current (cut) loop iteration"""
+        name = node.args[0].id if isinstance(node.args[0], ast.Name) else node.args[0].value
+        heads = getattr(self, "loop_heads", [])
+        if not heads or name not in heads[-1]:
+            raise E.Unsupported(f"at_head({name}) outside a cut loop")
+        return heads[-1][name]
+
+    def spec_gate_passed(self, node, frame):
+        """some call (since the current loop iteration began) to a collaborator whose name ends with `suffix`
+        returned a truthy value for exactly the argument `arg`"""
+        suf = node.args[0].value
+        arg = self.eval(node.args[1], frame)
+        start = getattr(self, "iter_call_start", [0])[-1]
+        alts = []
+        for c in self.run.calls[start:]:
+            if c["name"].endswith(suf) and c["outcome"] == "return" and len(c["args"]) >= 1:
+                alts.append(z3.And(self.identical(c["args"][0], arg), self.truthy(c["value"])))
+        return VBool(E.simp(z3.Or(alts)) if alts else False)
+
+    def spec_calls_in_iter(self, node, frame):
+        suf = node.args[0].value
+        start = getattr(self, "iter_call_start", [0])[-1]
+        return VInt(len([c for c in self.run.calls[start:] if c["name"].endswith(suf)]))
+
+    def spec_returned_in_iter(self, node, frame):
+        suf = node.args[0].value
+        start = getattr(self, "iter_call_start", [0])[-1]
+        for c in reversed(self.run.calls[start:]):
+            if c["name"].endswith(suf) and c["outcome"] == "return":
+                return c["value"]
+        return NONE
 
     def spec_calls_to(self, node, frame):
         """number of havocked-collaborator invocations whose name ends with the given suffix"""
